@@ -91,6 +91,8 @@ type pipeStage struct {
 	Fn    *ssa.Function // stage function (closure) for Function/LinewiseFunction
 	Spawn *spawnSite    // for CommandStage
 	Call  *ssa.Call
+	// Helper: the call of the module helper that returned this stage, if any
+	Helper *ssa.Call
 }
 
 type pipeAdd struct {
@@ -179,6 +181,16 @@ func (c *Ctx) stageOf(v ssa.Value) *pipeStage {
 	}
 	q := callee.String()
 	if !strings.HasPrefix(q, pipePkg+".") {
+		// a module helper that builds and returns the stage
+		if c.inRuleScope(callee) && len(callee.Blocks) > 0 && callee.Signature.Results().Len() == 1 {
+			for _, ret := range returnsOf(callee) {
+				inner := c.stageOf(c.resolve(ret.Results[0]))
+				if inner.Kind != "unknown" {
+					inner.Helper = call
+					return inner
+				}
+			}
+		}
 		st.Kind = q
 		return st
 	}
